@@ -1360,6 +1360,26 @@ Proof.
   - split; reflexivity.
 Qed.
 
+(* a route with two or more dots (or none of the two shapes) reaches nothing, whatever group and
+   method names - with or without dots - are registered *)
+Lemma malformed_never_resolves es route :
+  (2 < length (split_dot route))%nat -> resolve es route = None.
+Proof.
+  unfold resolve, split_route. intro L.
+  destruct (split_dot route) as [|a [|b [|c r]]]; simpl in L; try lia; reflexivity.
+Qed.
+
+Lemma resolves_one_dot es route mt :
+  resolve es route = Some mt ->
+  exists g m, (split_dot route = [g; m] \/ (split_dot route = [m] /\ g = inner_group)) /\
+              split_route route = Some (g, m).
+Proof.
+  unfold resolve, split_route.
+  destruct (split_dot route) as [|a [|b [|c r]]]; try discriminate; intros _.
+  - exists inner_group, a. split; [right; split; reflexivity | reflexivity].
+  - exists a, b. split; [left; reflexivity | reflexivity].
+Qed.
+
 (* ---- readable corollaries ---- *)
 Lemma invoked_once es s route dec c cb b mt seen :
   f4_ser es s route dec cb = false ->
